@@ -117,6 +117,7 @@ type world struct {
 	handlers []*hstate              // live (not yet returned) handler incarnations
 	closed   bool
 	connOf   func(ctx context.Context) int
+	stopSrv  func() // handler op "stopsrv": the application stops its server from inside a handler
 }
 
 func newWorld() *world {
@@ -401,6 +402,10 @@ func (w *world) runUnary(ctx context.Context, in *wrapperspb.BytesValue) (any, e
 			tr.emit(he)
 		case "sleep":
 			time.Sleep(time.Duration(op.Ms) * time.Millisecond)
+		case "stopsrv":
+			if w.stopSrv != nil {
+				w.stopSrv()
+			}
 		case "ret":
 			if op.Pay != "\x00echo" {
 				reply = payBytes(op.Pay)
@@ -550,6 +555,10 @@ func (w *world) runStream(kind string, ss grpc.ServerStream) error {
 			hr := base("HSendHdrRet")
 			hr.Res = errRes(err)
 			tr.emit(hr)
+		case "stopsrv":
+			if w.stopSrv != nil {
+				w.stopSrv()
+			}
 		case "sendbad":
 			// a message the codec refuses: SendMsg fails, nothing is written for it, the stream goes on
 			err := ss.SendMsg("not a protobuf message")
